@@ -704,6 +704,72 @@ def rule_int_arith(repo, rep, methods=None, closure=True):
     rep.derived(R, 'all-data-methods', '', sample=dict(rule=R, entry_points=n))
 
 
+def rule_feature_count_strict(repo, rep):
+  R = 'R-API:embedding-is-shape-strict'
+  rep.rule(R, 'a query whose feature count differs from the fitted one is '
+           'rejected by numpy itself when the data meets components_ in a '
+           'dot / matmul / @ product (the contracted axes must agree '
+           'exactly); an einsum or an element-wise product BROADCASTS an '
+           'axis of length one, so a single-feature query would be accepted '
+           'by a model fitted on more features: in transform, pair_distance '
+           'and the get_metric closure the learned transformation is '
+           'combined with data only through shape-strict products')
+  c = repo.get_class('MahalanobisMixin')
+  n = 0
+  for nm in ('transform', 'pair_distance', 'get_metric'):
+    f = repo.resolve_method(c, nm) if c is not None else None
+    if f is None:
+      continue
+    rep.analysed(f)
+    tainted = set()
+    changed = True
+    while changed:
+      changed = False
+      for a in ast.walk(f.node):
+        if isinstance(a, ast.Assign):
+          src = ast.unparse(a.value)
+          if 'self.components_' in src or any(
+                  isinstance(x, ast.Name) and x.id in tainted
+                  for x in ast.walk(a.value)):
+            # results of strict products are data again, not the transform
+            if isinstance(a.value, ast.Call) and ast.unparse(
+                    a.value.func).endswith(('.dot', 'np.dot', 'np.matmul',
+                                            'self.transform')):
+              continue
+            if isinstance(a.value, ast.BinOp) and isinstance(a.value.op,
+                                                             ast.MatMult):
+              continue
+            for t in a.targets:
+              if isinstance(t, ast.Name) and t.id not in tainted:
+                tainted.add(t.id)
+                changed = True
+
+    def is_L(e):
+      return 'self.components_' in ast.unparse(e) or any(
+          isinstance(x, ast.Name) and x.id in tainted for x in ast.walk(e))
+    bad = None
+    for x in ast.walk(f.node):
+      if isinstance(x, ast.Call) and (repo.dotted(f.module, x.func) or
+                                      '').endswith(('einsum', 'multiply')) \
+              and any(is_L(a) for a in x.args[1 if ast.unparse(
+                  x.func).endswith('einsum') else 0:]):
+        bad = bad or (x, ast.unparse(x)[:60])
+      if isinstance(x, ast.BinOp) and isinstance(x.op, ast.Mult) and \
+              (is_L(x.left) != is_L(x.right)) and not any(
+                  isinstance(y, ast.Constant) for y in (x.left, x.right)):
+        bad = bad or (x, ast.unparse(x)[:60])
+    n += 1
+    key = 'MahalanobisMixin.%s' % nm
+    if bad:
+      rep.refuted(R, key, site(f, bad[0]), '%s combines the learned '
+                  'transformation with data by a broadcasting operation: a '
+                  'query with one feature is accepted by a model fitted on '
+                  'more (and the reverse)' % bad[1])
+    else:
+      rep.derived(R, key, site(f))
+  rep.floor('embedding sites examined', n, 3)
+
+
 def check(repo, rep, tier):
   rule_taint(repo, rep)
   rule_validators(repo, rep)
@@ -715,6 +781,7 @@ def check(repo, rep, tier):
   api.run_rule(repo, rep)
   rule_int_safe(repo, rep)
   rule_int_arith(repo, rep)
+  rule_feature_count_strict(repo, rep)
   from . import c06b
   c06b.rule_validation_table(repo, rep)
   c06b.rule_validate_vector(repo, rep)
